@@ -77,6 +77,8 @@ def _parallel(name, kind, nd):
         },
         returns='int',
         replay=gens.gen_distances(kind, nd),
+        callee_views={'dd_dtw.c::dtw_distance': 'dd_dtw.c::dtw_distance#value',
+                      'dd_dtw.c::dtw_distance_ndim': 'dd_dtw.c::dtw_distance_ndim#value'},
         theories=('layout',),
         lemmas=LAYOUT_LEMMAS,
         props=('C07', 'C06', 'C08', 'C20'),
